@@ -362,7 +362,39 @@ _OPENERS = ["struct Bar:", "bits Bar:", "enum Xx:", "external Ext:", "  4 [+4]  
 
 def targeted(rng):
     r = rng
-    k = r.randrange(9)
+    k = r.randrange(13)
+    if k == 9:   # attributes (module, type and field level) whose value is an arbitrary expression
+        sp = Soup(r)
+        sp.fields = ["x"]
+        e = r.choice([sp.expr(r.choice([0, 1, 2])), "y", "x.y", "$is_statically_sized + $max()", "$present()", "$upper_bound()",
+                      "$present() ? 1 : $present()", "$next", "Foo", "Ee.AA", "x"])
+        name = r.choice(["x", "requires", "byte_order", "fixed_size_in_bits", "namespace", "is_signed", "text_output", "bogus"])
+        ctx = r.choice(["", "", "(cpp) ", "(len) "])
+        attr = "[%s%s%s: %s]" % (ctx, r.choice(["", "$default "]), name, e)
+        where = r.randrange(4)
+        if where == 0:
+            return ("attribute-expression", attr + "\nstruct Foo:\n  0 [+1]  UInt  x\n")
+        if where == 1:
+            return ("attribute-expression", "struct Foo:\n  " + attr + "\n  0 [+1]  UInt  x\n")
+        if where == 2:
+            return ("attribute-expression", "struct Foo:\n  0 [+1]  UInt  x\n    " + attr + "\n")
+        return ("attribute-expression", "enum Ee:\n  " + attr + "\n  AA = 1\n")
+    if k == 10:  # arguments of the wrong kind / number for type parameters
+        pty = r.choice(["UInt:8", "Int:8", "Flag", "Ee", "UInt:64"])
+        arg = r.choice(["true", "1", "Ee.AA", "x", "x == 1", "-1", "999999999999999999999", "Foo", "", "1, 2", "$next"])
+        return ("param-argument", "enum Ee:\n  AA = 1\nstruct Foo:\n  0 [+1]  UInt  x\n  1 [+1]  Bar(%s)  y\nstruct Bar(p: %s):\n  0 [+1]  UInt  z\n"
+                % (arg, pty))
+    if k == 11:  # builtins with the wrong number / kind of arguments
+        f = r.choice(["$max", "$present", "$upper_bound", "$lower_bound", "$static_size_in_bits", "$is_statically_sized", "$size_in_bytes"])
+        args = r.choice(["", "x", "x, x", "true", "Foo", "UInt", "1", "x.y", "$next", "Ee.AA"])
+        ctxs = r.choice(["  let y = %s\n", "  if %s:\n    1 [+1]  UInt  y\n", "  1 [+%s]  UInt:8[]  y\n", "  %s [+1]  UInt  y\n",
+                         "  1 [+1]  UInt  y\n    [requires: %s]\n", "  let y = %s + 1\n", "  let y = %s ? 1 : 2\n", "  let y = true ? %s : %s\n"])
+        return ("builtin-arguments", "enum Ee:\n  AA = 1\nstruct Foo:\n  0 [+1]  UInt  x\n" + ctxs.replace("%s", "%s(%s)" % (f, args)))
+    if k == 12:  # import aliases and type names used as values; self/empty imports
+        imp = r.choice(['import "" as m', 'import "m.emb" as m', 'import "testdata/imported.emb" as m'])
+        use = r.choice(["  let y = m\n", "  0 [+m]  UInt:8[]  y\n", "  let y = m.x\n", "  let y = true ? 1 : m\n", "  1 [+1]  m  y\n",
+                        "  1 [+1]  m.Nope  y\n", "  let y = m.Foo\n", "  if m:\n    1 [+1]  UInt  y\n"])
+        return ("import-alias-value", imp + "\nstruct Foo:\n  0 [+1]  UInt  x\n" + use)
     if k == 0:   # a block opened on the last line
         base = r.choice(_BASES)
         opener = r.choice(_OPENERS)
@@ -401,6 +433,11 @@ def targeted(rng):
     if k == 6:   # recursion / self reference / odd imports
         t = r.choice([
             "struct Foo:\n  0 [+1]  Foo  x\n",
+            "struct Foo:\n  0 [+$size_in_bytes]  UInt:8[]  x\n",
+            "struct Foo:\n  $size_in_bytes [+1]  UInt  x\n",
+            "struct Foo:\n  if $max_size_in_bytes == 1:\n    0 [+1]  UInt  x\n",
+            "bits Foo:\n  if $min_size_in_bits == 0:\n    0 [+1]  UInt  x\n",
+            "struct Foo:\n  0 [+1]  UInt  x\n  let y = $size_in_bytes\n  y [+1]  UInt  z\n",
             "struct Foo:\n  0 [+1]  UInt  x\n  let y = y\n",
             "struct Foo:\n  0 [+x]  UInt:8[]  x\n",
             'import "m.emb" as m\nstruct Foo:\n  0 [+1]  m.Foo  x\n',
